@@ -31,8 +31,13 @@ type c18Case struct {
 	// RawBOMBytes (single-byte encodings): the input starts with the bytes EF BB BF, which in those code pages are
 	// three ordinary characters, not a byte-order mark
 	RawBOMBytes bool `json:"raw_bom_bytes,omitempty"`
+	// RawLead (single-byte encodings): 1.. the input starts with the bytes of another encoding's byte-order mark
+	// (c18Leads), which are ordinary characters in the declared code page (the declared encoding is authoritative)
+	RawLead int `json:"raw_lead,omitempty"`
 	Schedule run.Schedule `json:"schedule"`
 }
+
+var c18Leads = [][]byte{nil, {0xFF, 0xFE}, {0xFE, 0xFF}, {0xFF, 0xFE, 0x00, 0x00}, {0x00, 0x00, 0xFE, 0xFF}, {0x2B, 0x2F, 0x76, 0x38}, {0xF7, 0x64, 0x4C}}
 
 func c18Inject(t *rapid.T, v, label string) string {
 	rs := []rune(v)
@@ -99,6 +104,9 @@ func genC18(t *rapid.T) c18Case {
 		c.BOM = rapid.Bool().Draw(t, "bom")
 	} else {
 		c.RawBOMBytes = rapid.IntRange(0, 4).Draw(t, "rawBomBytes") == 0
+		if !c.RawBOMBytes && rapid.IntRange(0, 4).Draw(t, "rawLead") == 0 {
+			c.RawLead = rapid.IntRange(1, len(c18Leads)-1).Draw(t, "rawLeadKind")
+		}
 	}
 	if rapid.Bool().Draw(t, "chunked") {
 		c.Schedule = run.Schedule{Sizes: []int{1}}
@@ -214,6 +222,10 @@ func checkC18(c c18Case) obs.Result {
 	if c.RawBOMBytes {
 		single = append([]byte{0xEF, 0xBB, 0xBF}, single...)
 		classes = append(classes, "bom-bytes-in-single-byte-encoding")
+	}
+	if c.RawLead > 0 && c.RawLead < len(c18Leads) {
+		single = append(append([]byte{}, c18Leads[c.RawLead]...), single...)
+		classes = append(classes, "other-bom-bytes-in-single-byte-encoding")
 	}
 	sEnc := c.Shape
 	sEnc.Encoding = c.Encoding
